@@ -494,7 +494,54 @@ func (g *Gen) ioReqs(scope, stream int) []string {
 	return out
 }
 
+// genC13Large: single reads of more than 4 / 8 KiB (internal buffering thresholds), complete and
+// cut at and around multiples of 4096, data arriving together with / before the end report.
+func genC13Large(g *Gen, w *bufio.Writer) {
+	u8 := &Ty{Kind: KUint, N: 1}
+	bl := &Ty{Kind: KList, N: 1 << 20, Elem: u8}
+	types := []*Ty{bl, {Kind: KContainer, Fields: []*Ty{{Kind: KUint, N: 2}, bl}}, {Kind: KVector, N: 8200, Elem: u8}}
+	for _, t := range types {
+		for _, n := range []int{4096, 4097, 8192, 8200, 12288} {
+			var v *Val
+			mk := func(k int) *Val {
+				seq := make([]*Val, k)
+				for i := range seq {
+					seq[i] = &Val{Kind: VNum, Num: new(big.Int).SetUint64(1 + g.U64()%255)}
+				}
+				return &Val{Kind: VSeq, Seq: seq}
+			}
+			switch t.Kind {
+			case KList:
+				v = mk(n)
+			case KContainer:
+				v = &Val{Kind: VSeq, Seq: []*Val{{Kind: VNum, Num: big.NewInt(7)}, mk(n)}}
+			default:
+				if n != 8200 {
+					continue
+				}
+				v = mk(8200)
+			}
+			bs := refSer(t, v)
+			x := hexs(bs)
+			L := len(bs)
+			for _, s := range []string{"all", "half", "c:4096", "c:5000", "c:4096,1"} {
+				for _, m := range ioModes {
+					fmt.Fprintf(w, "io.dec %s %s %d %s %s\n", s, m, L, t, x)
+				}
+				for _, k := range []int{4096, 4095, 4097, 8192, L - 1, L - 4096} {
+					if k >= 0 && k < L {
+						for _, m := range ioModes {
+							fmt.Fprintf(w, "io.dec %s %s %d %s %s\n", s, m, k, t, x)
+						}
+					}
+				}
+			}
+		}
+	}
+}
+
 func genC13(g *Gen, tier string, w *bufio.Writer) {
+	defer genC13Large(g, w) // last: leaves the random stream of everything else as it was
 	o := TyOpts{NoBoolSeries: true}
 	// ---- whole values: every failure position x schedules ----
 	nv := tierN(tier, 110, 1200)
@@ -514,6 +561,13 @@ func genC13(g *Gen, tier string, w *bufio.Writer) {
 		{&Ty{Kind: KVector, N: 2, Elem: lu}, &Val{Kind: VSeq, Seq: []*Val{emptyL, emptyL}}},
 		{&Ty{Kind: KContainer, Fields: []*Ty{lu, lu, u16}}, &Val{Kind: VSeq, Seq: []*Val{emptyL, emptyL, {Kind: VNum, Num: bigOne()}}}},
 		{&Ty{Kind: KList, N: 8, Elem: lu}, emptyL},
+		// dynamic fields / elements that write nothing BEHIND one that does (an error must not be
+		// replaced by the outcome of later, empty writes)
+		{&Ty{Kind: KContainer, Fields: []*Ty{lu, lu}}, &Val{Kind: VSeq, Seq: []*Val{{Kind: VSeq, Seq: []*Val{{Kind: VNum, Num: bigOne()}, {Kind: VNum, Num: bigOne()}}}, emptyL}}},
+		{&Ty{Kind: KContainer, Fields: []*Ty{lu, lu, lu}}, &Val{Kind: VSeq, Seq: []*Val{{Kind: VSeq, Seq: []*Val{{Kind: VNum, Num: bigOne()}}}, emptyL, emptyL}}},
+		{&Ty{Kind: KContainer, Fields: []*Ty{u16, lu, u16, lu}}, &Val{Kind: VSeq, Seq: []*Val{{Kind: VNum, Num: bigOne()}, {Kind: VSeq, Seq: []*Val{{Kind: VNum, Num: bigOne()}, {Kind: VNum, Num: bigOne()}, {Kind: VNum, Num: bigOne()}}}, {Kind: VNum, Num: bigOne()}, emptyL}}},
+		{&Ty{Kind: KList, N: 8, Elem: lu}, &Val{Kind: VSeq, Seq: []*Val{{Kind: VSeq, Seq: []*Val{{Kind: VNum, Num: bigOne()}, {Kind: VNum, Num: bigOne()}}}, emptyL, emptyL}}},
+		{&Ty{Kind: KVector, N: 3, Elem: lu}, &Val{Kind: VSeq, Seq: []*Val{{Kind: VSeq, Seq: []*Val{{Kind: VNum, Num: bigOne()}}}, emptyL, emptyL}}},
 		{&Ty{Kind: KList, N: 1 << 40, Elem: &Ty{Kind: KList, N: 1 << 40, Elem: lu}}, &Val{Kind: VSeq, Seq: []*Val{{Kind: VSeq, Seq: []*Val{emptyL, emptyL}}, emptyL}}},
 	}
 	for i := 0; i < nv+len(fixedCases); i++ {
